@@ -58,6 +58,11 @@ class SimLoop(asyncio.BaseEventLoop):
 
     def _record_exception(self, loop, context):
         exc = context.get('exception')
+        if 'was never retrieved' in context.get('message', ''):
+            # reported from an object's destructor, i.e. whenever the garbage collector gets to it: not part of a history
+            # that has to replay. Tasks that died are read deterministically at quiescence (unretrieved_task_errors).
+            self.gc_reports = getattr(self, 'gc_reports', 0) + 1
+            return
         self.exc_reports.append({
             'message': context.get('message', ''),
             'exc_type': type(exc).__name__ if exc is not None else None,
